@@ -482,7 +482,34 @@ LIB.getitem_handlers.insert(0, _at_getitem)
 # -------------------------------------------------------------------- jax
 @LIB.fn("jax.lax.stop_gradient", doc="identity on values; the result does not depend differentiably on anything")
 def stop_gradient(E, x):
+    if isinstance(x, (tuple, list)) and any(isinstance(y, (Tensor, tuple, list)) for y in x):
+        return type(x)(stop_gradient(E, y) for y in x)  # a pytree of arrays: leaf-wise
+    if isinstance(x, dict):
+        return {k: stop_gradient(E, v) for k, v in x.items()}
     x = tt(x)
+    pairs = _sg_pairs(E) if getattr(E.shared, "sg_freeze", False) else None
+    if pairs:
+        # "frozen parameter" mode (opt-in per task, used for gradient identities): the value behind a stop_gradient
+        # is computed from FROZEN COPIES of the network parameters - distinct symbols, equal in value (a path-condition
+        # fact per network).  Two expressions that are equal as functions of the live parameters, the frozen copies
+        # being independent constants, have equal gradients; the frozen == live facts are withheld from that obligation.
+        sub = lambda z: z3.substitute(z, *pairs)  # noqa: E731
+        if isinstance(x, Tensor):
+            rows = None
+            if x.rows is not None:
+                # keep the row function only if it is STRUCTURAL (mentions the parameters whenever the elements do):
+                # an index-only row name (mkrow_k(b)) would silently keep denoting the live rows
+                pb = [z3.Int(f"sgprobe!{j}") for j in range(x.ndim)]
+                try:
+                    e0 = C.to_z3(x.fn(*pb))
+                    r0 = x.rows(*pb[:-1])
+                    if z3.eq(sub(e0), e0) or not z3.eq(sub(r0), r0):
+                        rows = lambda *b, _r=x.rows: sub(_r(*b))  # noqa: E731
+                except Exception:  # noqa: BLE001
+                    rows = None
+            return Tensor(x.shape, lambda *i: _strip_sub(x.fn(*i), sub), x.sort, frozenset(), rows=rows)
+        if isinstance(x, Sym):
+            return Sym(sub(x.z))
     if isinstance(x, Tensor):
         return Tensor(x.shape, lambda *i: _strip(x.fn(*i)), x.sort, frozenset(), rows=x.rows)
     if isinstance(x, Sym):
@@ -496,6 +523,33 @@ def _strip(v):
     if isinstance(v, Sym):
         return Sym(v.z)
     return v
+
+
+def _strip_sub(v, sub):
+    if isinstance(v, Sym):
+        return Sym(sub(v.z))
+    return v
+
+
+def _sg_pairs(E):
+    """(live parameter, frozen copy) for every leaf network on the heap whose parameters are a constant symbol;
+    the first use of a network's frozen copy adds the fact  frozen == live  to the path condition (its id is kept in
+    ghost['sg_eq_ids'] so that a gradient-identity obligation can withhold it)"""
+    reg = E.st.ghost.setdefault("sg_frozen", {})
+    ids = E.st.ghost.setdefault("sg_eq_ids", set())
+    out = []
+    for o in list(E.heap.values()):
+        th = getattr(o, "fields", {}).get("$params") if hasattr(o, "fields") else None
+        if isinstance(th, Sym) and z3.is_const(th.z) and th.z.decl().kind() == z3.Z3_OP_UNINTERPRETED:
+            k = th.z.get_id()
+            if k not in reg:
+                fz = z3.Const(f"{th.z.decl().name()}!sg", th.z.sort())
+                fact = fz == th.z
+                E.st.pc.append(fact)
+                ids.add(fact.get_id())
+                reg[k] = (th.z, fz, getattr(o, "name", "?"), fact.get_id())
+            out.append((reg[k][0], reg[k][1]))
+    return out
 
 
 def _identity_decorator(name):
